@@ -6,7 +6,7 @@ from typing import Dict, List, Optional, Set, Tuple
 
 from ..db import ProgramDB, FuncInfo, ClassInfo, AnalysisError, unparse, own_nodes, dotted
 from ..cfg import CFG, Node
-from ..facts import own_calls, call_attr, call_name, local_defs, resolve_call_target
+from ..facts import alias_closure, is_len_minus_one, own_calls, call_attr, call_name, local_defs, resolve_call_target
 from ..framework import inst, HOLDS, VIOLATION, UNDECIDED, INFO, Instance
 from ..evalsites import site_model, is_eval_name
 from .history import BUILTIN_MUTATORS
@@ -408,8 +408,9 @@ def rule_none_tests(db: ProgramDB) -> List[Instance]:
                         # identity with None: only where the level cannot hold an output
                         src = get_calls[leaf.left.id]
                         g = guards_of(src, m.node.body) or []
+                        keys_names = {"self.keys", "self._keys"} | alias_closure(m, {"self.keys", "self._keys"})
                         before_last = any(pol and isinstance(tt, ast.Compare) and len(tt.ops) == 1 and isinstance(tt.ops[0], ast.Lt)
-                                          and "last" in unparse(tt.comparators[0]) for tt, pol in g)
+                                          and is_len_minus_one(m, tt.comparators[0], keys_names) for tt, pol in g)
                         out.append(inst("NONE-TEST", HOLDS if before_last else VIOLATION, m, f"{m.short}[{unparse(leaf)}]",
                                         "presence tested by identity with None at a level strictly before the last key (sub-tries only)" if before_last else
                                         f"`{unparse(leaf)}` takes a value read with .get() for absent when it is None, at a level that can hold "
@@ -469,7 +470,8 @@ def rule_insert_reaches_store(db: ProgramDB) -> List[Instance]:
     if m is None:
         raise AnalysisError("IndexedCache.insert not found")
     cfg = CFG(m)
-    loops = [nd for nd in cfg.nodes if nd.kind == "for" and "keys" in unparse(nd.stmt.iter)]
+    keys_names = {"self.keys", "self._keys"} | alias_closure(m, {"self.keys", "self._keys"})
+    loops = [nd for nd in cfg.nodes if nd.kind == "for" and any(unparse(x) in keys_names for x in ast.walk(nd.stmt.iter))]
     if not loops:
         raise AnalysisError("IndexedCache.insert: loop over the keys not found")
     def attr_hook(e, st, ev_):
